@@ -426,6 +426,14 @@ def resize(net, rng, x, kind, factor=2, align=False, half=False):
     return y
 
 
+def transpose(net, rng, x, perm):
+    shp = [x.shape[p] for p in perm]
+    pt = net.tensor([len(perm)], "int32", None, None, list(perm))
+    y = net.tensor(shp, x.dtype, x.scale, x.zp)
+    net.op("TRANSPOSE", [x, pt], [y], {})
+    return y
+
+
 def quantize(net, rng, x, dtype=None):
     y = net.tensor(list(x.shape), dtype or x.dtype, _rs(rng, 0.01, 0.3), _zp(rng, dtype or x.dtype))
     net.op("QUANTIZE", [x], [y], {})
@@ -530,7 +538,7 @@ def fam_conv_chain(rng, big=False):
 
 SINGLE_KINDS = ["conv", "dw", "fc", "maxpool", "avgpool", "add", "sub", "mul", "logistic", "tanh", "lrelu", "hswish",
                 "softmax", "mean", "resize_bilinear", "resize_nearest", "quantize", "tconv", "reshape", "pad",
-                "slice", "concat", "minimum", "maximum", "relu", "abs", "add_bcast", "mul_scalar"]
+                "slice", "concat", "minimum", "maximum", "relu", "abs", "add_bcast", "mul_scalar", "transpose"]
 
 
 def fam_single_op(rng, kind=None):
@@ -587,6 +595,17 @@ def fam_single_op(rng, kind=None):
                        rng.choice([2, 2, 4]), align=rng.random() < 0.3, half=rng.random() < 0.3)
         elif kind == "quantize":
             y = quantize(net, rng, x)
+        elif kind == "transpose":
+            # memory-only operator followed (usually) by something that consumes the transposed tensor on the NPU
+            if rng.random() < 0.6:
+                hh = rng.choice([4, 6, 8, 12])
+                x.shape[1], x.shape[2] = hh, hh          # square maps exercise the brick-format decision
+            y = transpose(net, rng, x, rng.choice([[0, 2, 1, 3], [0, 2, 1, 3], [0, 1, 3, 2]]) if rng.random() < 0.9 else [0, 3, 1, 2])
+            nxt = rng.choice(["maxpool", "conv", "none", "maxpool"])
+            if nxt == "maxpool" and min(y.shape[1:3]) >= 2:
+                y = pool(net, rng, y, "MAX_POOL_2D", (3, 3) if min(y.shape[1:3]) >= 3 else (2, 2), (1, 1), "SAME")
+            elif nxt == "conv":
+                y = conv2d(net, rng, y, 8, (1, 1))
         elif kind == "tconv":
             y = transpose_conv(net, rng, x, rng.choice([1, 4, 8]), (3, 3) if rng.random() < 0.7 else (2, 2), (2, 2), rng.choice(["SAME", "VALID"]))
         elif kind == "reshape":
